@@ -403,6 +403,7 @@ type client struct {
 	gotConnack  bool
 	connackOK   bool
 	stalled    bool
+	stalls     int
 	readWrites int // number of conn.writes fully consumed
 	readOff    int // bytes consumed of the next write
 	rbuf       []byte
